@@ -253,7 +253,9 @@ where
     I: IntoIterator<Item = T>,
   {
     let iter = iter.into_iter();
-    let size: usize = iter.size_hint().1.unwrap_or(0);
+    // Reserve for the lower bound only: the upper bound may be arbitrarily larger than the number of
+    // items actually yielded (e.g. `take_while` over a large range) and would overflow the capacity.
+    let size: usize = iter.size_hint().0;
 
     let mut this: Self = Self::with_capacity(size);
 
